@@ -230,6 +230,23 @@ func nodifyStrucType(nodes []Node) Node {
 	return NewStructType(name, members)
 }
 
+// nodifyStructOrTupleType builds a tuple from "(...)" and a struct from
+// "(...)<name,fields>".
+func nodifyStructOrTupleType(nodes []Node) Node {
+	if _, missing := nodes[3].(parsec.MaybeNone); missing {
+		return nodifyTupleType(nodes[:3])
+	}
+	def, ok := nodes[3].([]Node)
+	if ok && len(def) == 1 {
+		// Maybe wraps the matched node into a list
+		def, ok = def[0].([]Node)
+	}
+	if !ok || len(def) != 4 {
+		return fmt.Errorf("wrong struct definition %s", reflect.TypeOf(nodes[3]))
+	}
+	return nodifyStrucType([]Node{nodes[0], nodes[1], nodes[2], def[0], def[1], def[2], def[3]})
+}
+
 func init() {
 
 	var arrayType parsec.Parser
@@ -254,19 +271,29 @@ func init() {
 			typeName(),
 		))
 
-	tupleType = parsec.And(nodifyTupleType,
-		parsec.Atom("(", "TypeParameterStart"),
-		&listType,
-		parsec.Atom(")", "TypeParameterClose"))
-
-	structType = parsec.And(nodifyStrucType,
-		parsec.Atom("(", "TypeParameterStart"),
-		&listType,
-		parsec.Atom(")", "TypeParameterClose"),
+	// A struct is a tuple followed by its definition "<name,fields>".
+	// The common prefix "(...)" is parsed once: trying the struct
+	// alternative first and the tuple alternative second re-parsed the
+	// inside of every parenthesis twice, i.e. 2^depth times for nested
+	// tuples.
+	var structDefinition = parsec.And(nil,
 		parsec.Atom("<", "TypeDefinitionStart"),
 		structName(),
 		&typeMemberList,
 		parsec.Atom(">", "TypeDefinitionClose"))
+
+	structType = parsec.And(nodifyStructOrTupleType,
+		parsec.Atom("(", "TypeParameterStart"),
+		&listType,
+		parsec.Atom(")", "TypeParameterClose"),
+		parsec.Maybe(nil, structDefinition))
+
+	// tupleType is covered by structType (kept in the ordered choice
+	// for clarity, never reached).
+	tupleType = parsec.And(nodifyTupleType,
+		parsec.Atom("(", "TypeParameterStart"),
+		&listType,
+		parsec.Atom(")", "TypeParameterClose"))
 
 	mapType = parsec.And(nodifyMap,
 		parsec.Atom("{", "MapStart"),
